@@ -23,7 +23,7 @@
    code: mint_mint_race is the computed schedule (known finding, c03-sched).
 *)
 From Coq Require Import ZArith List Bool.
-From Verif Require Import Model Sem InvDb InvSwap InvMint InvMelt Corollaries Queries Footprint HRel Global GlobalQuote GlobalValue GlobalErr GlobalQuery GlobalMelt GlobalKeys Cuts CutOrder Conc Races GlobalBalance.
+From Verif Require Import Model Sem InvDb InvSwap InvMint InvMelt Corollaries Queries Footprint HRel Global GlobalQuote GlobalValue GlobalErr GlobalQuery GlobalMelt GlobalKeys Cuts CutOrder Conc Races GlobalBalance GlobalLedger Reconf.
 Import ListNotations.
 Open Scope Z_scope.
 
@@ -37,6 +37,15 @@ Theorem C03_quote_issued_at_most_once_per_payment : forall (cfg : config) (h : l
         (mq_state m = 0 -> cnt (mq_id m) iss <= cnt (mq_id m) cred).
 Proof. exact @quote_issued_at_most_once_per_payment. Qed.
 Print Assumptions C03_quote_issued_at_most_once_per_payment.
+
+Theorem C03_internal_credits_are_melts : forall (cfg : config) (h : list op),
+       ln_ok cfg world0 h ->
+       let
+       '(w, _, cred) := qtrace cfg world0 h [] [] in
+        exists ip : list (Z * Z),
+          cred = map snd ip /\ NoDup (map fst ip) /\ (forall p0 : Z * Z, In p0 ip -> pair_ok (w_db w) p0).
+Proof. exact @internal_credits_are_melts. Qed.
+Print Assumptions C03_internal_credits_are_melts.
 
 Theorem C03_step_qinv : forall (cfg : config) (w : world) (o : op) (iss cred : list Z),
        Good w ->
